@@ -320,6 +320,7 @@ func runC06(c *Ctx) {
 		}
 		ruleAlloc(c, p)
 		ruleRowsContract(c, p)
+		ruleRowsUsed(c, p, "C06.rowsused")
 		c.R.Rule("C06.errors", "E6 (as C07.errors): every read error on the decode side reaches only failure exits - a swallowed error turns hostile input into a silently wrong (internally inconsistent) result")
 		nE := runErrDisc(c, p, p.Funcs(), errDiscOpts{Rule: "C06.errors", Class: readerClass(p), Exempt: isDoReceiverPacket})
 		c.R.Floor("C06.errors", cfg.Name, nE, 190)
@@ -332,6 +333,7 @@ func runC06(c *Ctx) {
 	ruleDecodeLoops(c, p)
 	rulePanics(c, p)
 	ruleSliceOrder(c, p, "C06.slices")
+	ruleFrameBounds(c, p, "C06.frame")
 	ruleCaps(c, p)
 	ruleResetBefore(c, p, "C06.rowcount")
 	c.R.Assumptions = append(c.R.Assumptions,
@@ -1065,4 +1067,86 @@ func ruleSliceOrder(c *Ctx, p *core.Program, rule string) {
 		}
 	}
 	c.R.Floor(rule, cfg, n, 1)
+}
+
+// ---- C06.rowsused
+// ruleRowsUsed: a column decoder makes use of the row count it is given.
+func ruleRowsUsed(c *Ctx, p *core.Program, rule string) {
+	c.R.Rule(rule, "every DecodeColumn(r, rows) of a column type lets `rows` determine something: it (or a value computed from it) is an argument of a call (a nested decoder, a read, an allocation helper), the size of a make, a slice bound, or is compared with a non-constant value; a decoder that only compares it with constants (the `rows == 0` shortcut) takes its row count from the wire alone, so a block whose inner count field differs from the block's row count decodes successfully with Rows() != block rows")
+	cfg := p.Cfg.Name
+	n := 0
+	for _, ct := range columnTypes(p) {
+		fn := methodOf(p, ct, "DecodeColumn")
+		if fn == nil || fn.Blocks == nil || len(fn.Params) < 3 {
+			continue
+		}
+		rows := fn.Params[len(fn.Params)-1]
+		n++
+		key := "column/" + ct.Obj().Name()
+		seen := map[ssa.Value]bool{}
+		used := ""
+		var visit func(v ssa.Value, d int)
+		visit = func(v ssa.Value, d int) {
+			if seen[v] || d > 8 || used != "" {
+				return
+			}
+			seen[v] = true
+			refs := v.Referrers()
+			if refs == nil {
+				return
+			}
+			for _, r := range *refs {
+				switch x := r.(type) {
+				case *ssa.Convert:
+					visit(x, d+1)
+				case *ssa.ChangeType:
+					visit(x, d+1)
+				case *ssa.Phi:
+					visit(x, d+1)
+				case *ssa.BinOp:
+					switch x.Op {
+					case token.EQL, token.NEQ, token.LSS, token.LEQ, token.GTR, token.GEQ:
+						other := x.X
+						if other == v {
+							other = x.Y
+						}
+						if _, isConst := other.(*ssa.Const); !isConst {
+							used = "compared with a non-constant value"
+						}
+					default:
+						visit(x, d+1)
+					}
+				case *ssa.MakeSlice:
+					used = "size of an allocation"
+				case *ssa.Slice:
+					used = "slice bound"
+				case *ssa.Store:
+					if x.Val == v {
+						// spilled into a cell (captured by a closure or named result): follow the loads
+						if al, ok := x.Addr.(*ssa.Alloc); ok {
+							for _, lr := range *al.Referrers() {
+								if u, ok := lr.(*ssa.UnOp); ok && u.Op == token.MUL {
+									visit(u, d+1)
+								}
+							}
+						} else {
+							used = "stored"
+						}
+					}
+				case ssa.CallInstruction:
+					if bi, ok := x.Common().Value.(*ssa.Builtin); ok && bi.Name() != "make" {
+						continue
+					}
+					used = "argument of " + core.CallKey(fn, x)
+				}
+			}
+		}
+		visit(rows, 0)
+		if used != "" {
+			c.R.Ok(rule, key, cfg, p.Pos(fn.Pos()), "rows: "+used)
+		} else {
+			c.R.Bad(rule, key, cfg, p.Pos(fn.Pos()), "DecodeColumn never lets its rows parameter determine anything (it is at most compared with constants): the number of rows the column ends up with comes from a count field on the wire alone and need not equal the block's row count")
+		}
+	}
+	c.R.Floor(rule, cfg, n, 40)
 }
